@@ -13,6 +13,7 @@ import (
 	"fmt"
 	"os"
 	"os/exec"
+	"path/filepath"
 	"regexp"
 	"runtime/pprof"
 	"sort"
@@ -37,6 +38,7 @@ type workerSpec struct {
 	Journal       string
 	Thorough      bool
 	ReplayFile    string
+	Known         []string // finding classes listed as known: for C09
 }
 
 func main() {
@@ -45,6 +47,9 @@ func main() {
 		if err := json.Unmarshal([]byte(s), &sp); err != nil {
 			fmt.Fprintln(os.Stderr, "bad worker spec:", err)
 			os.Exit(2)
+		}
+		for _, k := range sp.Known {
+			knownClasses[k] = true
 		}
 		workerMain(sp)
 		return
@@ -310,8 +315,19 @@ func parentMain() {
 		"O2 (differential against chsim-executed SQL of the ClickHouse planner) is not part of this run unless extra.o2 says so",
 	}
 
+	knownFile := filepath.Join(ev.Root(), "KNOWN_FINDINGS.txt")
+	if f := os.Getenv("C09_KNOWN_FILE"); f != "" {
+		knownFile = f // experiments only: which findings the explanation search may assume
+	}
+	var known []string
+	for _, k := range ev.LoadKnown(knownFile) {
+		if k.Status == "known" && k.Property == "C09" {
+			known = append(known, k.Class)
+		}
+	}
+	sort.Strings(known)
 	if r.Replay != "" {
-		replayMain(r, scratch)
+		replayMain(r, scratch, known)
 		return
 	}
 
@@ -384,6 +400,9 @@ func parentMain() {
 			r.Sample(map[string]any{"query": ur.Query, "unit": ur.Name, "executions": ur.Runs, "outcomes": ur.Outcomes})
 		}
 		for _, f := range ur.Findings {
+			if dc := os.Getenv("C09_DUMP_CLASS"); dc != "" && f.Class == dc {
+				fmt.Printf("DUMP %s %s\n", f.Class, f.What)
+			}
 			var rep any
 			json.Unmarshal(f.Replay, &rep)
 			r.Violate(f.Class, f.What, rep)
@@ -396,7 +415,7 @@ func parentMain() {
 			defer wg.Done()
 			journal := fmt.Sprintf("%s/journal-%d", scratch, k)
 			sp := workerSpec{Shard: k, Shards: nw, From: 0, OnlyUnit: -1, OnlySeq: -1, DeadlineNs: r.Deadline.UnixNano(),
-				Journal: journal, Thorough: r.Thorough()}
+				Journal: journal, Thorough: r.Thorough(), Known: known}
 			idle := 0
 			for {
 				os.WriteFile(journal, make([]byte, 16), 0o644)
@@ -418,25 +437,25 @@ func parentMain() {
 				}
 				class, msg := crashClass(res.stderrTail)
 				mu.Lock()
-				known, seen := confirmed[class]
+				reproduced, seen := confirmed[class]
 				mu.Unlock()
 				if !seen {
 					deaths := 0
 					for a := 0; a < 3; a++ {
-						one := workerSpec{Shards: 1, OnlyUnit: ui, OnlySeq: seq, Journal: journal + ".one", Thorough: r.Thorough()}
+						one := workerSpec{Shards: 1, OnlyUnit: ui, OnlySeq: seq, Journal: journal + ".one", Thorough: r.Thorough(), Known: known}
 						if rr := spawn(one, func(*unitResult) {}); !rr.done {
 							deaths++
 						}
 					}
-					known = deaths == 3
+					reproduced = deaths == 3
 					mu.Lock()
-					confirmed[class] = known
+					confirmed[class] = reproduced
 					mu.Unlock()
 				}
 				u := &us[ui]
 				q := u.query()
 				mu.Lock()
-				if known {
+				if reproduced {
 					totals.crashedUnits = append(totals.crashedUnits, u.name())
 					totals.classes[class]++
 					totals.outcomes["crash"]++
@@ -505,11 +524,11 @@ func parentMain() {
 	r.Finish()
 }
 
-func replayMain(r *ev.Run, scratch string) {
+func replayMain(r *ev.Run, scratch string, known []string) {
 	deaths := 0
 	var last spawnResult
 	for a := 0; a < 3; a++ {
-		last = spawn(workerSpec{ReplayFile: r.Replay, OnlyUnit: -1, OnlySeq: -1}, nil)
+		last = spawn(workerSpec{ReplayFile: r.Replay, OnlyUnit: -1, OnlySeq: -1, Known: known}, nil)
 		if last.done {
 			break
 		}
